@@ -5,6 +5,7 @@ import CoercionModel.Props.C05
 import CoercionModel.Props.C07
 import CoercionModel.Model.Skeletons
 import CoercionModel.Generated.F10
+import CoercionModel.Proofs.TranslatedFinal
 set_option linter.unusedSimpArgs false
 /-
   C04 — Wait returns a terminal, quiescent, consistent and truthful final plan.
@@ -139,5 +140,16 @@ theorem facts_skeleton :
     Generated.F10.examineBypasses = Skeletons.examineBypasses ∧
     Generated.F10.smEnd = Skeletons.smEnd := by
   decide
+
+/-- translated from final.go on every run: `examineChecks` on [pre, cont, post, deferred] names the first
+    group that is present and not Completed, with that stage's reason — the chain `Model/Engine.final` is
+    written with (this is also where D2 comes from: a group that never ran is "not Completed") -/
+theorem translated_examineChecks (pre cont post dfr : Option Checks) :
+    Generated.T1.examineChecks [pre, cont, post, dfr] =
+      (match Engine.final none (TranslatedFinal.verdictOf pre) (TranslatedFinal.verdictOf cont) (TranslatedFinal.verdictOf post)
+          (TranslatedFinal.verdictOf dfr) true with
+       | (.failed, r) => (r, true)
+       | _ => (.unknown, false)) :=
+  TranslatedFinal.examineChecks_eq pre cont post dfr
 
 end Coercion.C04
